@@ -13,6 +13,16 @@ CHECKS = {
          "Every Add/Sub/Neg/Mul/Mul(s,nil) expression of depth <=2-3 over a closure of API-reachable values (identity, base, Pick/Hash/Embed points, decoded and non-normalised forms) and the boundary scalar alphabet S(q) is executed on all 20 group instances and compared, transition by transition, with a Z_q-module model recomputed through an Add-only path; all value pairs are checked for Equal<=>model equality<=>encoding equality. Bounded-exhaustive: complete over the stated alphabets, nothing outside them.",
          "Trusted: math/big, the harness' model, Point.Add as the recomputation primitive (its own defects are cross-checked by C18's independent curve model); generators of unknown discrete log are assumed independent.",
          "DESIGN.md §4 C01"),
+ "C02": ("model_checking",
+         "explicit-state depth-2 closure of scalar operations on the real implementations vs. math/big, lock-step; exhaustive SetBytes lengths 0..96; two build variants",
+         "For each of 17 scalar implementations (Ed25519 limb code, mod.Int at 8 moduli and both byte orders, CIRCL, gnark; and mod.Int over bigmod + Ed25519 conversions in a second binary built with -tags constantTime) every Add/Sub/Mul/Div/Neg/Inv/Set over a boundary alphabet (q-1, 2^k, 2^k+-1 at 21-bit limb and 64-bit word boundaries, ...) is executed and its encoding compared with math/big; every level-1 result object is fed back as an operand (non-canonical internal forms as inputs); Equal<=>residue equality on all pool pairs; SetBytes at every length 0..96 x 12 patterns (incl. q-1,q,q+1,2q-1 encodings); SetInt64 boundaries incl. MinInt64; Pick with recording/rejection-forcing streams (range + determined solely by drawn bytes).",
+         "Trusted: math/big; operands enter through UnmarshalBinary of canonical encodings. Values outside the alphabet are not covered.",
+         "DESIGN.md §4 C02"),
+ "C03": ("model_checking",
+         "exhaustive enumeration over the closure of API-reachable representations and a reader-behaviour alphabet on the real encoders/decoders, free-module model for equality",
+         "For all 20 groups, every value of the closure R (identity, generators, Pick/Hash/Embed points, sums, negations, multiples, decoded forms - i.e. non-normalised internal coordinates) and every reduced scalar (alphabet, arithmetic results, SetBytes/Pick/SetInt64 results) is encoded and decoded into receivers in four prior states, through MarshalBinary/UnmarshalBinary, MarshalTo, UnmarshalFrom under 7 reader behaviours (one-byte, half, data+EOF, trailing, short, empty), and the util/encoding hex helpers; all pairs are checked for Equal <=> identical bytes <=> model equality.",
+         "Trusted: the free-module model (C01) for point equality, testing/iotest readers. Only values in the closure are covered.",
+         "DESIGN.md §4 C03"),
 }
 
 NOT_YET = "check not built yet in this round (planned: see DESIGN.md §4)"
